@@ -644,6 +644,70 @@ fn clock(seed: u64, budget: u64) {
     evals += n;
     vh::distinct("clock/cross-thread");
 
+    // elapsed(): now - self. A deadline pushed into the future must give None (negative difference), a past
+    // instant Some(x) with x >= the distance it was moved back by (lower bound; "now" only moves forward).
+    let mut el_cases = 0u64;
+    for k in 0..(budget * 4).max(64) {
+        let d = match k % 6 {
+            0 => Duration::new(3600, 0),
+            1 => Duration::new(86_400 * 365, 1),
+            2 => Duration::new(30, 999_999_999),
+            3 => Duration::new(1 + r.below(1 << 32), r.below(1_000_000_000) as u32),
+            4 => Duration::new(i64::MAX as u64 / 4, 0),
+            _ => Duration::new(10 + r.below(1000), 0),
+        };
+        let checks = vh::catch(|| {
+            let mut bad: Vec<String> = Vec::new();
+            if let Some(fut) = Instant::now() + d {
+                if let Some(x) = fut.elapsed() {
+                    bad.push(format!("Instant deadline {d:?} ahead: elapsed() = Some({x:?}), expected None"));
+                }
+                if Instant::now() >= fut || (Instant::now() - fut).is_some() {
+                    bad.push(format!("Instant deadline {d:?} ahead compares as not-after now"));
+                }
+            }
+            if let Some(past) = Instant::now() - d {
+                match past.elapsed() {
+                    Some(x) if x >= d => {}
+                    other => bad.push(format!("Instant moved back by {d:?}: elapsed() = {other:?}, expected Some(>= d)")),
+                }
+            }
+            if let Some(fut) = SystemTime::now() + d {
+                if let Some(x) = fut.elapsed() {
+                    bad.push(format!("SystemTime {d:?} ahead: elapsed() = Some({x:?}), expected None"));
+                }
+            }
+            if d.as_secs() < 1_000_000 {
+                if let Some(past) = SystemTime::now() - d {
+                    match past.elapsed() {
+                        Some(x) if x + Duration::from_millis(50) >= d => {}
+                        other => bad.push(format!("SystemTime moved back by {d:?}: elapsed() = {other:?}")),
+                    }
+                }
+            }
+            let m = MonotonicInstant::now();
+            let e1 = m.elapsed();
+            let e2 = m.elapsed();
+            if e2 < e1 {
+                bad.push(format!("MonotonicInstant::elapsed decreased: {e1:?} then {e2:?}"));
+            }
+            bad
+        });
+        el_cases += 1;
+        match checks {
+            Err(p) => vh::viol("C19/elapsed/panic", &format!("{{\"d\":[{},{}],\"panic\":{}}}", d.as_secs(), d.subsec_nanos(), vh::js(&p))),
+            Ok(bad) => {
+                for b in bad.iter().take(2) {
+                    vh::viol("C19/elapsed/wrong", &format!("{{\"d\":[{},{}],\"what\":{}}}", d.as_secs(), d.subsec_nanos(), vh::js(b)));
+                }
+            }
+        }
+    }
+    vh::count("elapsed_cases", el_cases);
+    vh::distinct("elapsed/future-deadline-none");
+    vh::distinct("elapsed/past-instant-lower-bound");
+    evals += el_cases;
+
     // sleep lower bound, with and without interrupting signals
     unsafe {
         signal(10, on_usr1 as usize);
